@@ -325,6 +325,9 @@ class ModelsWorld(World):
                     m["values"][rng.choice(tv)] = {"t": [round(val.uniform(0.5, 2.0), 3), round(val.uniform(0.9, 1.1), 3) if r.tname == "nonlin" else 0.0]}
             elif x < 0.5:
                 m = {"k": "alter", "n": rng.randint(1, self.cfg["max_nv"])}
+            elif x < 0.56 and nv > 1:
+                vals = {k: v for k, v in self._draw_params(val, r.tname, 1, subset=True, rng=rng).items()}
+                m = {"k": "assign_variant", "v": rng.randrange(nv), "values": vals, "how": rng.choice(["getitem", "get_variant"])}
             elif x < 0.7:
                 m = {"k": "steady"}
             elif x < 0.9:
